@@ -569,6 +569,14 @@ pub fn run_capture_log(prog: &Program, cfg: &Config) -> (Vec<SharedStorage>, boo
 /// of C05, not from the layer): what a capture layer with filter `flt` must hold after the given
 /// sequence of subscriber calls. Returns the dump in the format of `dump`.
 pub fn expected_dump(sites: &[Site], flt: &Filt, log: &[program::FeCall], prefix: &str) -> Vec<String> {
+    let tagged: Vec<(usize, program::FeCall)> = log.iter().cloned().map(|c| (0, c)).collect();
+    expected_dump_tagged(sites, flt, &tagged, prefix)
+}
+
+/// The same for an interleaved log of several threads (each call tagged with its thread):
+/// contextual parents resolve against the calling thread's own stack; a span counts as entered
+/// if it is on any thread's stack.
+pub fn expected_dump_tagged(sites: &[Site], flt: &Filt, log: &[(usize, program::FeCall)], prefix: &str) -> Vec<String> {
     use program::FeCall;
     use std::collections::HashMap;
     struct Sp { k: usize, vals: Vec<(String, crate::proto::Val)>, e: usize, x: usize, par: Option<usize>, ch: Vec<usize>, ev: Vec<usize>, ff: Vec<usize>, id: u64 }
@@ -583,7 +591,7 @@ pub fn expected_dump(sites: &[Site], flt: &Filt, log: &[program::FeCall], prefix
         }
         out
     };
-    let mut stack: Vec<(u64, bool)> = vec![];
+    let mut stacks: HashMap<usize, Vec<(u64, bool)>> = HashMap::new();
     let mut parent: HashMap<u64, Option<u64>> = HashMap::new();
     let mut handles: HashMap<u64, i64> = HashMap::new();
     let mut cap: HashMap<u64, usize> = HashMap::new();
@@ -611,7 +619,9 @@ pub fn expected_dump(sites: &[Site], flt: &Filt, log: &[program::FeCall], prefix
             p => p.strip_prefix("p:").and_then(|x| x.parse().ok()),
         }
     };
-    for call in log {
+    for (tid, call) in log {
+        let mut stack = stacks.remove(tid).unwrap_or_default();
+        let all_stacks: Vec<(u64, bool)> = stacks.values().flatten().copied().chain(stack.iter().copied()).collect();
         match call {
             FeCall::Register(_) => {}
             FeCall::NewSpan { k, id, parent: ptok, vals } => {
@@ -637,7 +647,7 @@ pub fn expected_dump(sites: &[Site], flt: &Filt, log: &[program::FeCall], prefix
             }
             FeCall::Follows(a, b) => {
                 if let (Some(ca), Some(cb)) = (cap.get(a), cap.get(b)) {
-                    if !closed(*b, &handles, &stack, &parent) {
+                    if !closed(*b, &handles, &all_stacks, &parent) {
                         let cb = *cb;
                         spans[*ca].ff.push(cb);
                     }
@@ -671,7 +681,9 @@ pub fn expected_dump(sites: &[Site], flt: &Filt, log: &[program::FeCall], prefix
                 }
             }
         }
+        stacks.insert(*tid, stack);
     }
+    let stack: Vec<(u64, bool)> = stacks.values().flatten().copied().collect();
     let kname = |k: usize| sites.iter().position(|x| *x == sites[k]).map_or("k?".into(), |i| format!("k{i}"));
     let mut out = vec![];
     for (i, s) in spans.iter().enumerate() {
